@@ -99,6 +99,17 @@ func (g *gl) call(c *ast.CallExpr, bs *[]glBind) string {
 		g.bad(c.Pos(), "%s with a pattern that is not a one-byte ASCII constant (or a non-empty replacement)", name)
 		return "[]"
 	case "fmt.Sprintf":
+		// "%.Nb" of one unsigned value no wider than N bits: exactly N characters '0'/'1', most significant first
+		if tv := g.info().Types[c.Args[0]]; tv.Value != nil && tv.Value.Kind() == constant.String && len(c.Args) == 2 {
+			var n int
+			if f := constant.StringVal(tv.Value); len(f) >= 4 && f[0] == '%' && f[1] == '.' && f[len(f)-1] == 'b' {
+				if _, err := fmt.Sscanf(f[2:len(f)-1], "%d", &n); err == nil && fmt.Sprintf("%%.%db", n) == f {
+					if w := glWidth(g.leanType(g.typeOf(c.Args[1]))); w > 0 && w <= n {
+						return fmt.Sprintf("(bitsN %d %s.toNat)", n, atom(g.expr(c.Args[1], bs)))
+					}
+				}
+			}
+		}
 		// only %s verbs, every argument a string or []byte: the concatenation of the literal pieces and the arguments
 		if tv := g.info().Types[c.Args[0]]; tv.Value != nil && tv.Value.Kind() == constant.String {
 			pieces := strings.Split(constant.StringVal(tv.Value), "%s")
